@@ -32,8 +32,9 @@ class SegTask(_PyTask):
 
 
 class FakeWriter:
-    def __init__(self, addr):
-        self.addr = addr
+    def __init__(self, addr, peer=None):
+        self.addr = addr          # the harness' key of the connection
+        self.peer = peer if peer is not None else addr      # what the server sees as the peer address
         self.chunks = []          # raw bytes written
         self.closed = False
         self.fail_write = None    # exception to raise on next write
@@ -41,7 +42,7 @@ class FakeWriter:
 
     def get_extra_info(self, key):
         if key == "peername":
-            return self.addr
+            return self.peer
         return None
 
     def write(self, data):
@@ -82,11 +83,12 @@ class FakeServer:
 
 
 class Conn:
-    def __init__(self, drv, addr):
+    def __init__(self, drv, addr, peer=None):
         self.drv = drv
         self.addr = addr
+        self.peer = peer if peer is not None else addr
         self.reader = asyncio.StreamReader(loop=drv.loop)
-        self.writer = FakeWriter(addr)
+        self.writer = FakeWriter(addr, peer)
         self.task = None
         self.sent = 0            # requests sent by the harness
         self.consumed = 0        # chunks already returned to the caller
@@ -184,8 +186,10 @@ class Driver:
             self.loop._run_once()
 
     # ---- external events -----------------------------------------------------
-    def connect(self, addr):
-        c = Conn(self, addr)
+    def connect(self, addr, peer=None):
+        """peer: the address the server sees (default: addr); a later connection may come from the peer address of an earlier,
+        finished one (port reuse) while the harness keeps addressing the two by different keys."""
+        c = Conn(self, addr, peer)
         self.conns[addr] = c
         c.task = self.loop.create_task(self.server_cb(c.reader, c.writer))
         return c
